@@ -88,6 +88,27 @@ def h_interp(B, shape, dist, points):
     fx = field_of(dom, x)
     B.close("positions are periodic: value(p) == value(p + extent)", _flat(op2(fx)), _flat(op(fx)), rel=1e-9)
     B.close("positions are periodic: value(p) == value(p - extent)", _flat(op3(fx)), _flat(op(fx)), rel=1e-9)
+    # the documented action for EVERY point (also in the last cell of an axis, where the upper neighbour is pixel 0):
+    # multilinear weights on the 2^ndim surrounding pixels, indices taken modulo the grid shape
+    xo = np.asarray(x, dtype=object if B.mode == "sym" else np.float64)
+    ref = []
+    for k in range(pts.shape[1]):
+        lo, fr = [], []
+        for a in range(ndim):
+            q = float(pts[a, k]) / dist[a]
+            lo.append(int(np.floor(q)))
+            fr.append(q - np.floor(q))
+        tot = 0
+        for corner in np.ndindex(*((2,) * ndim)):
+            w = 1.0
+            for a in range(ndim):
+                w = w * (fr[a] if corner[a] else 1.0 - fr[a])
+            if w == 0.0:
+                continue
+            tot = tot + xo[tuple((lo[a] + corner[a]) % shape[a] for a in range(ndim))] * (sc.SR(sc.q(float(w))) if B.mode == "sym" else w)
+        ref.append(tot)
+    B.close("every point: periodic multilinear interpolation of the surrounding pixels (upper neighbour of the last cell is pixel 0)",
+            _flat(op(fx)), ref, rel=1e-9)
     cst = B.reals("k", ())
     B.close("a constant field is reproduced", _flat(op(field_of(dom, np.full(shape, cst, dtype=object if B.mode == "sym" else np.float64)))),
             [cst] * pts.shape[1], rel=1e-9)
